@@ -211,11 +211,328 @@ def run(ctx):
                     ctx.alarm('correspondence', 'sphere_sample differs from the model (%s)' % rec)
     from .gensamplers import check_generated_samplers
     check_generated_samplers(ctx)          # the definitions regenerated from the source (Generated/Samplers.lean) vs the real functions
+    more_generators(ctx)
+
+
+# ======================================================================================================================
+#  create_ray (both APIs), create_ray_from_angles, propagate, circular_uniform(_random)_sample, random_sample_point_cloud,
+#  batch_of_rays
+# ======================================================================================================================
+
+def rot_mode(angles, mode='XYZ'):
+    """documented rotation modes of rotate_point(s): the letters give the order in which the axis rotations are applied"""
+    a = np.radians(angles)
+    R = {'X': np.array([[1, 0, 0], [0, math.cos(a[0]), -math.sin(a[0])], [0, math.sin(a[0]), math.cos(a[0])]]),
+         'Y': np.array([[math.cos(a[1]), 0, math.sin(a[1])], [0, 1, 0], [-math.sin(a[1]), 0, math.cos(a[1])]]),
+         'Z': np.array([[math.cos(a[2]), -math.sin(a[2]), 0], [math.sin(a[2]), math.cos(a[2]), 0], [0, 0, 1]])}
+    return R[mode[2]] @ R[mode[1]] @ R[mode[0]]
+
+
+def unit_dir(rng, cls):
+    if cls == 'axis':
+        d = np.zeros(3); d[rng.randrange(3)] = rng.choice([-1.0, 1.0])
+        return d
+    if cls == 'plane':
+        t = rng.uniform(0, 2 * math.pi)
+        d = np.array([math.cos(t), math.sin(t), 0.0])
+        return np.roll(d, rng.randrange(3))
+    d = np.array([rng.gauss(0, 1) for _ in range(3)])
+    return d / np.linalg.norm(d)
+
+
+def angle_class(rng, cls):
+    a = lambda: rng.choice([-1, 1]) * rng.uniform(1, 179)
+    return {'zero': [0., 0., 0.], 'x': [a(), 0., 0.], 'y': [0., a(), 0.], 'z': [0., 0., a()], 'xy': [a(), a(), 0.],
+            'xyz': [a(), a(), a()], 'right': [rng.choice([0., 90., 180., -90.]) for _ in range(3)]}[cls]
+
+
+def check_create_ray_numpy(point, angles_deg, as_list):
+    """returns (ok, text)"""
+    import odak.raytracing as NR
+    d = np.cos(np.radians(np.asarray(angles_deg, dtype=np.float64)))
+    ray = NR.create_ray(list(point) if as_list else np.array(point), list(angles_deg) if as_list else np.array(angles_deg))
+    ray = np.asarray(ray)
+    if ray.shape != (2, 3):
+        return False, 'shape %s' % (ray.shape,)
+    if not np.array_equal(ray[0], np.asarray(point, dtype=np.float64)):
+        return False, 'start %s is not the given point %s' % (ray[0].tolist(), list(point))
+    if np.max(np.abs(ray[1] - d)) > 1e-9:
+        return False, 'direction cosines %s are not the cosines %s of the given angles' % (ray[1].tolist(), d.tolist())
+    return True, ''
+
+
+def check_create_ray_torch(xyz, abg, direction, dtype):
+    """xyz, abg: nested lists of the documented sizes [3], [1 x 3] or [m x 3]; returns (ok, what, text)"""
+    import odak.learn.raytracing as LR
+    dt = torch.float32 if dtype == 'float32' else torch.float64
+    tx, ta = torch.tensor(xyz, dtype=dt), torch.tensor(abg, dtype=dt)
+    ray = LR.create_ray(tx, ta, direction=direction).detach().numpy().astype(np.float64)
+    pts = np.asarray(tx.numpy(), dtype=np.float64).reshape(-1, 3)
+    ang = np.asarray(ta.numpy(), dtype=np.float64).reshape(-1, 3)
+    m = pts.shape[0]
+    want = ang if direction else np.cos(np.radians(ang))
+    if ray.shape != (m, 2, 3):
+        return False, 'count', 'returns %s for %d start point(s) of size %s (documented: one ray per point, [1 x 2 x 3] or [m x 2 x 3])' % (
+            ray.shape, m, list(np.shape(xyz)))
+    if np.max(np.abs(ray[:, 0] - pts)) > 5e-4 * max(1.0, float(np.max(np.abs(pts)))):
+        return False, 'origin', 'start points %s are not the given points %s' % (ray[:, 0].tolist(), pts.tolist())
+    if np.max(np.abs(ray[:, 1] - want)) > 5e-4 * max(1.0, float(np.max(np.abs(want)))):
+        return False, 'direction', 'directions %s, expected %s' % (ray[:, 1].tolist(), want.tolist())
+    return True, '', ''
+
+
+def check_from_angles(point, angles, mode, shape2d):
+    import odak.raytracing as NR
+    pt = np.array([point]) if shape2d else np.array(point)
+    kw = {} if mode is None else {'mode': mode}
+    ray = np.asarray(NR.create_ray_from_angles(pt, list(angles), **kw), dtype=np.float64)
+    want = rot_mode(angles, mode or 'XYZ') @ np.array([0., 0., 1.])
+    if ray.shape != (2, 3):
+        return False, 'shape', 'shape %s' % (ray.shape,)
+    if np.max(np.abs(ray[0] - np.asarray(point))) > 1e-9:
+        return False, 'origin', 'start %s is not the given point %s' % (ray[0].tolist(), list(point))
+    if np.max(np.abs(ray[1] - want)) > 1e-9:
+        return False, 'direction', 'direction %s is not the Z axis rotated by the angles %s in mode %s, i.e. %s' % (
+            ray[1].tolist(), list(angles), mode or 'XYZ (default)', want.tolist())
+    return True, '', ''
+
+
+def check_disc(samples, radius, center, angles, count, tol=1e-9):
+    """points of the disc of the given radius about the centre in the plane tilted by the angles (mode XYZ); returns text or None"""
+    s = np.asarray(samples, dtype=np.float64)
+    if s.ndim != 2 or s.shape[1] != 3 or (count is not None and s.shape[0] != count):
+        return 'returns shape %s, expected (%s, 3)' % (s.shape, count), None
+    if s.shape[0] == 0:
+        return None, s
+    local = (s - np.asarray(center)) @ rot_mode(angles)          # R^T (p - c)
+    sc = max(1.0, radius, float(np.max(np.abs(center))))
+    if not np.all(np.isfinite(s)):
+        return 'non-finite sample points', None
+    if np.max(np.abs(local[:, 2])) > tol * sc * 10:
+        return 'points are up to %.3g off the tilted plane through the centre' % float(np.max(np.abs(local[:, 2]))), None
+    if np.max(np.linalg.norm(local[:, :2], axis=1)) > radius * (1 + 1e-9) + tol * sc * 10:
+        return 'points reach %.6g from the centre, radius %.6g' % (float(np.max(np.linalg.norm(local[:, :2], axis=1))), radius), None
+    return None, local
+
+
+def more_generators(ctx):
+    import odak.learn.raytracing as LR
+    import odak.raytracing as NR
+    import odak.tools as NT
+    rng = ctx.rng
+    ctx.rule += ('; create_ray (NumPy: list/array arguments, direction classes; torch: sizes [3], [1x3], [mx3] m = 2..4, direction False/True, '
+                 'float32/64), create_ray_from_angles (point sizes [3], [1x3], every mode, angle classes), propagate along the ray, '
+                 'circular_uniform_sample / circular_uniform_random_sample / random_sample_point_cloud / batch_of_rays with tilts, '
+                 'centres of distinct coordinates, counts 1..n and seeds')
+    DIRS = ['random', 'random', 'axis', 'plane']
+    ANG = ['zero', 'x', 'y', 'z', 'xy', 'xyz', 'right']
+    MODES = [None, 'XYZ', 'XZY', 'YXZ', 'ZXY', 'ZYX']
+    # ---------------- NumPy create_ray: point + direction angles
+    for k in range(ctx.n(24, 200)):
+        d = unit_dir(rng, DIRS[k % 4])
+        ang = np.degrees(np.arccos(np.clip(d, -1, 1))).tolist()
+        pt = vec(rng, 5)
+        rec = {'gen': 'np.create_ray', 'point': pt, 'angles': ang, 'as_list': bool(k % 2)}
+        ctx.case(('np.create_ray', tuple(pt), tuple(ang)), True, rec)
+        ctx.count('create_ray/numpy/' + DIRS[k % 4])
+        try:
+            ok, text = check_create_ray_numpy(pt, ang, bool(k % 2))
+        except Exception as e:
+            ok, text = False, 'raised %r' % e
+        if ok:
+            ray = np.asarray(NR.create_ray(pt, ang))
+            if abs(np.linalg.norm(ray[1]) - 1) > 1e-9:
+                ok, text = False, 'direction cosines %s of the direction angles %s are not unit length' % (ray[1].tolist(), ang)
+        if not ok:
+            ctx.violation('numpy create_ray: ' + text, rec, {'api': 'numpy', 'fn': 'create_ray', 'what': 'point_and_cosines'})
+    # ---------------- torch create_ray: documented sizes, direction False / True
+    SHAPES = ['[3]', '[1x3]', '[mx3]']
+    for k in range(ctx.n(36, 300)):
+        shp = SHAPES[k % 3]
+        direction = bool((k // 3) % 2)
+        dtype = 'float32' if (k // 6) % 2 == 0 else 'float64'
+        m = 1 if shp != '[mx3]' else 2 + (k // 3) % 3
+        dirs = [unit_dir(rng, DIRS[(k + i) % 4]) for i in range(m)]
+        pts = [vec(rng, 5) for _ in range(m)]
+        abg = [d.tolist() for d in dirs] if direction else [np.degrees(np.arccos(np.clip(d, -1, 1))).tolist() for d in dirs]
+        xyz = pts[0] if shp == '[3]' else pts
+        abg = abg[0] if shp == '[3]' else abg
+        rec = {'gen': 'torch.create_ray', 'xyz': xyz, 'abg': abg, 'direction': direction, 'dtype': dtype, 'size': shp}
+        ctx.case(('torch.create_ray', shp, direction, dtype, tuple(pts[0])), True, rec)
+        ctx.count('create_ray/torch/%s direction=%s' % (shp, direction))
+        try:
+            ok, what, text = check_create_ray_torch(xyz, abg, direction, dtype)
+        except Exception as e:
+            ok, what, text = False, 'raises', 'raised %r' % e
+        if not ok:
+            ctx.violation('torch create_ray(%s, direction=%s): %s' % (shp, direction, text), rec,
+                          {'api': 'torch', 'fn': 'create_ray', 'what': what, 'size': shp})
+    # ---------------- NumPy create_ray_from_angles
+    for k in range(ctx.n(42, 300)):
+        acls, mode = ANG[k % len(ANG)], MODES[(k // len(ANG)) % len(MODES)]
+        angles = angle_class(rng, acls)
+        pt = vec(rng, 5) if k % 5 else [rng.uniform(-3, 3)] * 3          # every fifth point has x = y = z
+        rec = {'gen': 'create_ray_from_angles', 'point': pt, 'angles': angles, 'mode': mode, 'point_size': '[1x3]' if k % 2 else '[3]'}
+        ctx.case(('from_angles', acls, mode, tuple(pt)), True, rec)
+        ctx.count('create_ray_from_angles/%s/%s' % (acls, 'x=y=z' if k % 5 == 0 else 'distinct coordinates'))
+        try:
+            ok, what, text = check_from_angles(pt, angles, mode, bool(k % 2))
+        except Exception as e:
+            ok, what, text = False, 'raises', 'raised %r' % e
+        if not ok:
+            ctx.violation('numpy create_ray_from_angles: ' + text, rec,
+                          {'api': 'numpy', 'fn': 'create_ray_from_angles', 'what': what, 'equal_coordinates': k % 5 == 0})
+    # ---------------- travelling the distance between the two points along the created ray reaches the end point
+    for k in range(ctx.n(20, 200)):
+        m = 1 + k % 3
+        p0 = np.array([vec(rng, 5) for _ in range(m)]); p1 = np.array([vec(rng, 5) for _ in range(m)])
+        dist = np.linalg.norm(p1 - p0, axis=1)
+        rec = {'gen': 'propagate', 'p0': p0.tolist(), 'p1': p1.tolist()}
+        ctx.case(('propagate', m, tuple(p0[0])), True, rec)
+        ctx.count('propagate/%d rays' % m)
+        rt = LR.create_ray_from_two_points(torch.tensor(p0, dtype=torch.float64), torch.tensor(p1, dtype=torch.float64))
+        end_t = LR.propagate_ray(rt, torch.tensor(dist, dtype=torch.float64)).detach().numpy().astype(np.float64).reshape(m, 2, 3)
+        # (the direction row of torch propagate_ray's result is all zeros - the property speaks about the point reached only)
+        if np.max(np.abs(end_t[:, 0] - p1)) > 5e-4 * 10:
+            ctx.violation('torch: propagating the ray from p0 towards p1 by |p1 - p0| ends at %s, not at p1 = %s' % (end_t[:, 0].tolist(), p1.tolist()),
+                          rec, {'api': 'torch', 'fn': 'propagate_ray', 'what': 'reach'})
+        for i in range(m):
+            rn = NR.create_ray_from_two_points(p0[i].copy(), p1[i].copy())
+            end_n = np.asarray(NR.propagate_a_ray(rn, float(dist[i])), dtype=np.float64).reshape(2, 3)
+            if np.max(np.abs(end_n[0] - p1[i])) > 1e-9 * 10 or np.max(np.abs(end_n[1] - np.asarray(rn).reshape(2, 3)[1])) > 1e-12:
+                ctx.violation('numpy: propagating the ray from p0 towards p1 by |p1 - p0| ends at %s, not at p1 = %s' % (end_n[0].tolist(), p1[i].tolist()),
+                              rec, {'api': 'numpy', 'fn': 'propagate_a_ray', 'what': 'reach'})
+    # ---------------- circular_uniform_sample (rings), circular_uniform_random_sample (seeded)
+    for k in range(ctx.n(21, 150)):
+        acls = ANG[k % len(ANG)]
+        angles = angle_class(rng, acls)
+        center = [rng.uniform(-5, 5), rng.uniform(6, 9), rng.uniform(-20, -10)] if k % 4 else [0., 0., 0.]
+        radius = rng.choice([0.01, 1.0, rng.uniform(0.5, 10), 250.0])
+        no = [[1, 1], [1, 5], [2, 1], [2, 4], [3, 6], [4, 3], [5, 10], [6, 7]][k % 8]
+        rec = {'sampler': 'circular_uniform_sample', 'no': no, 'radius': radius, 'center': center, 'angles': angles}
+        ctx.case(('circular_uniform', tuple(no), acls, tuple(center), radius), no[0] > 1, rec)
+        ctx.count('circular_uniform_sample/' + acls)
+        try:
+            c = NT.circular_uniform_sample(no=list(no), radius=radius, center=list(center), angles=list(angles))
+            rings = [int(no[1] * i / no[0]) for i in range(no[0])]
+            text, local = check_disc(c, radius, center, angles, sum(rings))
+            if text is None and local is not None and local.shape[0]:
+                # ring i holds int(no[1] * i / no[0]) points at radius i / no[0] * radius: density proportional to the radius
+                rr = np.linalg.norm(local[:, :2], axis=1)
+                want = np.concatenate([np.full(n, i / no[0] * radius) for i, n in enumerate(rings)]) if sum(rings) else np.zeros(0)
+                if np.max(np.abs(np.sort(rr) - np.sort(want))) > 1e-9 * max(1.0, radius, float(np.max(np.abs(center)))) * 10:
+                    text = 'ring radii %s are not i / no[0] * radius with int(no[1] * i / no[0]) points on ring i' % np.unique(np.round(rr, 9)).tolist()
+        except Exception as e:
+            text = 'raised %r' % e
+        if text:
+            ctx.violation('circular_uniform_sample: ' + text, rec, {'fn': 'circular_uniform_sample', 'what': 'membership', 'api': 'numpy'})
+        seed = rng.randrange(2 ** 31)
+        rec = {'sampler': 'circular_uniform_random_sample', 'no': no, 'radius': radius, 'center': center, 'angles': angles, 'np_seed': seed}
+        ctx.case(('circular_uniform_random', tuple(no), acls, tuple(center), radius, seed), True, rec)
+        ctx.count('circular_uniform_random_sample/' + acls)
+        try:
+            np.random.seed(seed)
+            c = NT.circular_uniform_random_sample(no=list(no), radius=radius, center=list(center), angles=list(angles))
+            text, local = check_disc(c, radius, center, angles, no[0] * no[1])
+        except Exception as e:
+            text = 'raised %r' % e
+        if text:
+            ctx.violation('circular_uniform_random_sample: ' + text, rec, {'fn': 'circular_uniform_random_sample', 'what': 'membership', 'api': 'numpy'})
+    # ---------------- random_sample_point_cloud
+    for k in range(ctx.n(24, 150)):
+        n = [1, 2, 5, 17][k % 4]
+        cloud = np.array([vec(rng, 9) for _ in range(n)])
+        pcls = ['none', 'none', 'one_hot', 'some_zero', 'uniform', 'one_hot'][k % 6]
+        if pcls == 'none':
+            no, p = rng.randint(1, n), None                   # without probabilities the draw is without replacement (no <= n)
+        else:
+            no = rng.randint(1, 12)
+            if pcls == 'one_hot':
+                p = [0.0] * n; p[rng.randrange(n)] = 1.0
+            elif pcls == 'uniform':
+                p = [1.0 / n] * n
+            else:
+                keep = [i for i in range(n) if rng.random() < 0.5] or [0]
+                p = [1.0 / len(keep) if i in keep else 0.0 for i in range(n)]
+        seed = rng.randrange(2 ** 31)
+        rec = {'sampler': 'random_sample_point_cloud', 'cloud': cloud.tolist(), 'no': no, 'p': p, 'np_seed': seed}
+        ctx.case(('point_cloud', n, no, pcls, seed), True, rec)
+        ctx.count('random_sample_point_cloud/p=' + pcls)
+        text, what = point_cloud_check(cloud, no, p, seed)
+        if text:
+            ctx.violation('random_sample_point_cloud: ' + text, rec, {'fn': 'random_sample_point_cloud', 'what': what, 'api': 'numpy', 'p': pcls})
+    # ---------------- batch_of_rays: one-to-one, single point on either side repeated
+    for k in range(ctx.n(24, 150)):
+        n = 1 + k % 3
+        form = ['n-n', '1-n', 'n-1', '3-3'][k % 4] if n > 1 else ['[3]-[3]', '[1x3]-[3]', '[3]-[1x3]', '[1x3]-[1x3]'][(k // 3) % 4]
+        ent = np.array([vec(rng, 5) for _ in range(n)]); ext = np.array([vec(rng, 5) for _ in range(n)]) + np.array([0., 0., 20.])
+        if form == '1-n':
+            a_ent, a_ext, ent = ent[0], ext, np.repeat(ent[:1], n, axis=0)
+        elif form == 'n-1':
+            a_ent, a_ext, ext = ent, ext[0], np.repeat(ext[:1], n, axis=0)
+        elif form in ('[3]-[3]', '[1x3]-[3]', '[3]-[1x3]', '[1x3]-[1x3]'):
+            a_ent = ent[0] if form.startswith('[3]') else ent
+            a_ext = ext[0] if form.endswith('-[3]') else ext
+        else:
+            a_ent, a_ext = ent, ext
+        rec = {'gen': 'batch_of_rays', 'entry': np.asarray(a_ent).tolist(), 'exit': np.asarray(a_ext).tolist(), 'form': form}
+        ctx.case(('batch_of_rays', form, n, tuple(ent[0])), True, rec)
+        ctx.count('batch_of_rays/' + form)
+        try:
+            rays = np.asarray(NT.batch_of_rays(np.array(a_ent), np.array(a_ext)), dtype=np.float64)
+            dist = np.linalg.norm(ext - ent, axis=1)
+            text = None
+            if rays.shape != (n, 2, 3):
+                text = 'returns shape %s for %d entry/exit pair(s)' % (rays.shape, n)
+            elif np.max(np.abs(rays[:, 0] - ent)) > 1e-9:
+                text = 'ray i does not start at entry point i: %s vs %s' % (rays[:, 0].tolist(), ent.tolist())
+            elif np.max(np.abs(np.linalg.norm(rays[:, 1], axis=1) - 1)) > 1e-9 or np.max(np.abs(rays[:, 0] + dist[:, None] * rays[:, 1] - ext)) > 1e-9 * 30:
+                text = 'ray i is not the unit direction that reaches exit point i after |exit - entry|: directions %s' % rays[:, 1].tolist()
+        except Exception as e:
+            text = 'raised %r' % e
+        if text:
+            ctx.violation('batch_of_rays (%s): %s' % (form, text), rec, {'fn': 'batch_of_rays', 'what': 'one_to_one', 'api': 'numpy', 'form': form})
+
+
+def point_cloud_check(cloud, no, p, seed):
+    import odak.tools as NT
+    cloud = np.asarray(cloud, dtype=np.float64)
+    try:
+        np.random.seed(seed)
+        sub = np.asarray(NT.random_sample_point_cloud(cloud.copy(), no, None if p is None else list(p)))
+    except Exception as e:
+        return 'raised %r' % e, 'raises'
+    if sub.shape != (no, 3):
+        return 'returns shape %s for no = %d' % (sub.shape, no), 'count'
+    idx = []
+    for row in sub:
+        hit = np.nonzero(np.all(cloud == row, axis=1))[0]
+        if len(hit) == 0:
+            return 'returned point %s is not a point of the cloud' % row.tolist(), 'membership'
+        idx.append(int(hit[0]))
+    if p is not None:
+        bad = [i for i in idx if p[i] == 0.0]
+        if bad:
+            return ('point %d of the cloud has probability 0 in p = %s but was drawn (drawn indices %s)' % (bad[0], list(p), idx)), 'probability_zero_drawn'
+    return None, None
 
 
 def replay(ctx, rep):
     import odak.learn.raytracing as LR
     r = rep['replay']
+    if r.get('gen') == 'np.create_ray':
+        ok, text = check_create_ray_numpy(r['point'], r['angles'], r['as_list']); print(text); return ok
+    if r.get('gen') == 'torch.create_ray':
+        ok, what, text = check_create_ray_torch(r['xyz'], r['abg'], r['direction'], r['dtype']); print(text); return ok
+    if r.get('gen') == 'create_ray_from_angles':
+        ok, what, text = check_from_angles(r['point'], r['angles'], r['mode'], r['point_size'] == '[1x3]'); print(text); return ok
+    if r.get('sampler') == 'random_sample_point_cloud':
+        text, what = point_cloud_check(r['cloud'], r['no'], r['p'], r['np_seed']); print(text); return text is None
+    if r.get('sampler') in ('circular_uniform_sample', 'circular_uniform_random_sample'):
+        import odak.tools as NT
+        np.random.seed(r.get('np_seed', 0))
+        c = getattr(NT, r['sampler'])(no=r['no'], radius=r['radius'], center=r['center'], angles=r['angles'])
+        text, _ = check_disc(c, r['radius'], r['center'], r['angles'], None); print(text); return text is None
     if 'limit' in r:
         torch.manual_seed(r['seed'])
         rays = LR.create_ray_from_point_w_luminous_angle(torch.tensor(r['origin']), r['num'], torch.tensor(r['tilt']), r['limit']).numpy()
